@@ -610,11 +610,23 @@ func (p *Program) pfOneErrMayBeNil(fs []Fact, v ssa.Value) bool {
 }
 
 // pfNonEmptySliceLit: v is a slice expression over a fixed-size array with at least one element
-// (composite literal `[]T{a, ...}` or the variadic tail of append).
+// (composite literal `[]T{a, ...}` or the variadic tail of append), or a `make` of constant length >= 1.
 func pfNonEmptySliceLit(v ssa.Value) bool {
+	// make([]T, n) with a constant n >= 1 (elements are filled in afterwards): as long as a
+	// composite literal of the same length
+	if mk, isMk := stripConv(v).(*ssa.MakeSlice); isMk {
+		n, isC := constInt(mk.Len)
+		return isC && n >= 1
+	}
 	sl, ok := stripConv(v).(*ssa.Slice)
-	if !ok || sl.Low != nil || sl.High != nil {
+	if !ok || sl.Low != nil {
 		return false
+	}
+	// go/ssa writes make([]T, n) with a constant n as `new [n]T` sliced with [:n]
+	if sl.High != nil {
+		if n, isC := constInt(sl.High); !isC || n < 1 {
+			return false
+		}
 	}
 	a, ok := sl.X.(*ssa.Alloc)
 	if !ok {
@@ -956,5 +968,48 @@ func uniqStrings(in []string) []string {
 			out = append(out, s)
 		}
 	}
+	return out
+}
+
+// returnsReachedWithErr: the Return instructions that can be reached after call k while the error
+// result of k may still be non-nil. CFG paths are followed from k; an edge whose facts establish
+// `x == nil` for an x that isErr accepts (x holds the error of k there) is not followed: beyond it
+// the error is known to be nil, whatever shape the test has (`if err != nil { return … }` inside
+// the loop that makes the call, `if err != nil || … { break }` and a test behind the loop,
+// inverted guards, a boolean that materialises the test). When the walk comes back to k the error
+// is assigned anew and the walk simply goes on from there.
+func (p *Program) returnsReachedWithErr(k *ssa.Call, isErr func(x ssa.Value) bool) []*ssa.Return {
+	nilOnEdge := func(from, to *ssa.BasicBlock) bool {
+		for _, f := range p.FactsOnEdge(from, to) {
+			x, trueMeansNonNil, ok := errNilTest(f.Cond)
+			if ok && f.Pol != trueMeansNonNil && isErr(x) {
+				return true
+			}
+		}
+		return false
+	}
+	var out []*ssa.Return
+	kb := k.Block()
+	if r, ok := kb.Instrs[len(kb.Instrs)-1].(*ssa.Return); ok {
+		out = append(out, r)
+	}
+	seen := map[*ssa.BasicBlock]bool{}
+	var walk func(from *ssa.BasicBlock)
+	walk = func(from *ssa.BasicBlock) {
+		for _, to := range from.Succs {
+			if seen[to] || nilOnEdge(from, to) {
+				continue
+			}
+			seen[to] = true
+			if to == kb {
+				continue // the successors of k's block are being walked already
+			}
+			if r, ok := to.Instrs[len(to.Instrs)-1].(*ssa.Return); ok {
+				out = append(out, r)
+			}
+			walk(to)
+		}
+	}
+	walk(kb)
 	return out
 }
